@@ -288,6 +288,9 @@ func (p *pRun) hook(name string) {
 	if !p.armed {
 		return
 	}
+	if strings.HasPrefix(name, "keyspace.") || strings.HasPrefix(name, "pubsub.") || strings.HasPrefix(name, "readmessage.") {
+		return // nothing is written to disk between these points: the images of the file-operation points cover them
+	}
 	if name == "aof.preamble.state.copied" || name == "snapshot.take.state.copied" {
 		p.pendCopyIdx, p.pendCopyNow = p.acked, p.in.Clock.Ms()
 	}
